@@ -331,6 +331,7 @@ func (c *Conn) writeLocked(p []byte, first bool) (n int, err error, wait chan st
 			n = space
 		}
 		c.held = append(c.held, p[:n]...)
+		c.LastWriteAt = c.env.Now()
 		c.env.Ev("c%d W %d held", c.N, n)
 	}
 	if n == len(p) {
